@@ -1,3 +1,35 @@
-import Rustemo.Model.LR
+import Rustemo.Proofs.Roundtrip
+import Rustemo.Props.C13
+/-!
+# C14 — the generic parse tree is lossless: tokens and layout reconstruct the input
+
+`Tree.flat input t` concatenates, for each leaf of `t` in order, the layout stored before it and the
+token text (both are slices of the input buffer).  Proved for the default string lexer with
+whitespace skipping on or off, any recognizers, partial parsing on or off, every input.
+
+NOT proved (decided by oracle + correspondence on generated grammars and inputs): the same identity
+under a user Layout rule (whitespace, comments, nested comments), that the stored layout is
+whitespace / a sentence of the Layout rule, and that inserting layout never changes the tree.
+-/
 namespace Rustemo.Props.C14
+open Rustemo
+
+/-- **Round trip.**  If the parser returns `ok r` in final context `ctx`, the leaves of `r.tree`
+    with their stored layout, followed by the layout skipped before the end, are exactly the
+    consumed input `input[0, ctx.pos)`. -/
+theorem C14_roundtrip (env : Env) (hc : env.custom = none) (hl : env.t.layoutState = none)
+    (hr : RecogOk env) (hstop : Cert.noShiftStop env.t = true)
+    (hcert : Cert.structural env.g env.t (autosOf env.g env.t) = true)
+    (partialParse : Bool) (fuel : Nat) (ctx : Ctx) (r : ParseResult)
+    (h : parse env partialParse fuel = (ctx, .ok r)) :
+    Tree.flat env.input r.tree ++ layBytes env.input ctx.lay = env.input.take ctx.pos.pos :=
+  parse_roundtrip env hc hl hr (C13.noShiftStop_sound _ hstop) (Cert.structural_sound _ _ _ hcert)
+    partialParse fuel ctx r h
+
+/-- non-vacuity -/
+example : Example.env.custom = none ∧ Example.env.t.layoutState = none ∧
+    Cert.noShiftStop Example.env.t = true ∧
+    Cert.structural Example.env.g Example.env.t (autosOf Example.env.g Example.env.t) = true ∧
+    Example.isOk (parse Example.env false 100).2 = true := by decide
+
 end Rustemo.Props.C14
